@@ -236,7 +236,8 @@ def run(tier, seed):
     u2 = rng.uniform(0.3, 30.0)
     # consecutive nearly equal cells (a strained grain of the same phase): stale per-cell caches would show
     us = [1.0, u2, u2 * (1 + 3e-6), u2 * (1 - 2e-6)]
-    res = common.pmap(worker, [(x, us) for x in recs])
+    us_extreme = [rng.uniform(0.005, 0.02), rng.uniform(5e3, 3e4)]       # edges of ~0.2 A and ~400 A
+    res = common.pmap(worker, [(x, us if k % 5 else us + us_extreme) for k, x in enumerate(recs)])
     ncalls = 0
     for x, (n, out) in zip(recs, res):
         ncalls += n
